@@ -271,6 +271,51 @@ def shard_sweep(idx):
     return acc
 
 
+def from_list_case(lay, ops):
+    """MemoryControllerHub.from_memory_list called twice with the SAME list / dict objects (how an embedder builds several cores from one memory map):
+    each hub owns its devices - a write through one is invisible through the other, a later hub starts zero-filled, the caller's list is not modified"""
+    import copy
+    model = Model(lay)
+    lst = [{'mem_type': 'RAM', 'beginning': b, 'end': e} for b, e, _ in model.devs]
+    before = copy.deepcopy(lst)
+    try:
+        ha = MemoryControllerHub.from_memory_list(lst)
+        for kind, a, size, value in ops:
+            if kind == 'w':
+                ha[desc(a), size] = value
+        hb = MemoryControllerHub.from_memory_list(lst)
+    except Exception as ex:
+        return 'host error %s: %s' % (type(ex).__name__, ex)
+    if lst != before:
+        return 'from_memory_list modified the caller\'s memory list: %r' % (lst,)
+    for i, mc in enumerate(hb.memories):
+        if any(mc.mem.memory_array):
+            return 'second hub built from the same list is not zero-filled (device %d): shares storage with the first' % i
+    for ma, mb in zip(ha.memories, hb.memories):
+        if ma.mem is mb.mem or ma.mem.memory_array is mb.mem.memory_array:
+            return 'two hubs share a device object'
+    return None
+
+
+def shard_from_list(seed, count):
+    import random
+    acc = Acc()
+    rng = random.Random(seed)
+    for _ in range(count):
+        lay = [[rng.choice(ANCHORS), rng.randrange(0, 0x24), rng.randrange(1, 70)] for _ in range(rng.randrange(1, 4))]
+        model = Model(lay)
+        ops = []
+        for b, e, _ in model.devs:
+            for _k in range(3):
+                sz = rng.choice(SIZES)
+                ops.append(['w', rng.randrange(b, e), sz, rng.getrandbits(8 * sz) | 1])
+        msg = from_list_case(lay, ops)
+        acc.case(True, ('fl', repr(lay), repr(ops)), cls='from-memory-list-twice', sample={'layout': lay, 'writes': ops[:3]})
+        if msg:
+            acc.violation('C16:from-list:' + bucket_of(msg), {'from_list': True, 'layout': lay, 'ops': ops}, msg)
+    return acc
+
+
 def edge_check(case):
     from vf import e1
     cpu = e1.build(case)
@@ -324,7 +369,7 @@ def run(ctx):
                 'the last bytes below 2^32, and above 4 GiB up to the top of the 40-bit physical space) then <=N reads/writes of size 1/2/4/8 at addresses drawn from device boundaries +-9, '
                 'unmapped gaps, >2^32 and random; oracle = per-device byte arrays + first-match rule, checked after every step '
                 '(device lengths, every byte, read values, no host exception). Plus a deterministic sweep of every address around '
-                'every boundary of 10 fixed layouts, and emulate_cycle() steps whose fetch / data access lies at the last bytes of a device. Non-trivial history: contains an access within 8 bytes of a device end or >=2 '
+                'every boundary of 10 fixed layouts, and emulate_cycle() steps whose fetch / data access lies at the last bytes of a device; two hubs built by from_memory_list from the same list objects own separate, zero-filled devices. Non-trivial history: contains an access within 8 bytes of a device end or >=2 '
                 'touching/overlapping devices; distinct = distinct (layout, op sequence).')
     ctx.technique = 'stateful model-based property testing (Hypothesis rule-based machine) against an in-memory byte model'
     ctx.assumptions = ['RAM devices only (the only MemoryType shipped)', 'values written are in range for their size (all callers mask)']
@@ -332,6 +377,7 @@ def run(ctx):
     steps = ctx.n(40, 60)
     tasks = [(shard_machine, (ctx.shard_seed(i), ex, steps, not ctx.quick)) for i in range(16)]
     tasks += [(shard_sweep, (i,)) for i in range(10)]
+    tasks += [(shard_from_list, (ctx.shard_seed(80), ctx.n(300, 5000)))]
     tasks += [(shard_edge_steps, (ctx.shard_seed(50 + i), ctx.n(400, 8000))) for i in range(4)]
     ctx.pmap(_dispatch, tasks)
 
@@ -341,6 +387,9 @@ def _dispatch(fn, args):
 
 
 def replay(case, bucket=None):
+    if case.get('from_list'):
+        msg = from_list_case(case['layout'], case['ops'])
+        return [msg] if msg else []
     if 'edge_case' in case:
         bad = edge_check(case['edge_case'])
         return [bad] if bad else []
